@@ -12,7 +12,7 @@ git -C /repo worktree remove --force $scratch 2>/dev/null
 git -C /repo worktree add -q $scratch HEAD || exit 3
 trap 'git -C /repo worktree remove --force '$scratch' 2>/dev/null' EXIT
 demo=$src/${m}_demo_test.go
-dir=$(grep -oE 'pkg/[A-Za-z0-9_/]+' $demo | head -1 | sed 's#/$##')
+dir=$(grep -oE 'pkg/[A-Za-z0-9_/]+' $demo | head -1 | sed 's#/$##; s#/m[0-9]_demo_test$##; s#/[a-z0-9_]*_test$##')
 run=$(grep -oE "\-run '?[^ ']+'?" $demo | head -1 | sed "s/-run //; s/'//g")
 echo "demo dir=$dir run=$run"
 cd $scratch
